@@ -2,6 +2,7 @@
 import random
 
 import orders
+import proto
 import prun
 import vcommon
 from checks import pcommon
@@ -52,6 +53,30 @@ def _many_worker(a):
     return r
 
 
+def report_scripts(rng, n):
+    """Directed: a client is asked by a service and waits; a reload adds a service whose name sorts BEFORE it (or behind it); an
+    operator asks for the configuration / statistics report; the client's remaining data arrives.  The service that was asked is
+    not asked again, the newcomer is asked once its needs are met - whatever the report did to the table's order."""
+    out = []
+    for k in range(n):
+        old, new = [("m.svc", "a.svc"), ("zeta.example.org", "Alpha.Net"), ("login.svc", "drone.svc"), ("b.svc", "c.svc")][k % 4]
+        lp = ["login", "login-ipr", "combined"][(k // 4) % 3]
+        cfg = proto.Config([(old, lp)], timeout=3600)
+        cid = [5, 0, 70000][k % 3]
+        newp = ["dronecheck", "login", "login-ipr"][(k // 2) % 3]
+        ev = [{"t": "announce", "id": cid, "ip": "192.0.2.5", "port": 1005}, {"t": "host", "id": cid, "name": "h5.example"}, {"t": "ident", "id": cid, "name": "id5"}]
+        if lp == "combined":
+            ev += [{"t": "nick", "id": cid, "name": "n5"}, {"t": "userinfo", "id": cid, "user": "u5", "real": "R"}]
+        ev += [{"t": "password", "id": cid, "text": "+x acct5 pw"}, {"t": "reload", "services": [[old, lp], [new, newp]]}]
+        ev += [rng.choice([{"t": "noise", "line": "-1 ? config"}, {"t": "stats"}, {"t": "noise", "line": "-1 ? stats2"}]) for _ in range(rng.choice([1, 2, 3]))]
+        if lp != "combined":
+            ev += [{"t": "nick", "id": cid, "name": "n5"}, {"t": "userinfo", "id": cid, "user": "u5", "real": "R"}]
+        ev += [{"t": "noise", "line": "-1 ? config"}, {"t": "hurry", "id": cid}, {"t": "reply", "svc": old, "tag": "%x_1" % cid, "text": "OK acct5"},
+               {"t": "reply", "svc": new, "tag": "%x_1" % cid, "text": "OK"}, {"t": "timeout", "id": cid}, {"t": "stats"}]
+        out.append((cfg, ev))
+    return out
+
+
 def run(chk, tier, scale=1.0):
     b = prun.build_daemon("c06-" + tier)
     rng = random.Random("c06x/%d" % chk.seed)
@@ -77,6 +102,10 @@ def run(chk, tier, scale=1.0):
     prun.fold(chk, "C06", vcommon.pmap(prun.hist_worker, jobs, chunksize=4))
     # directed scripts around a reload that removes (and replaces) a service in the middle of a MORE dialogue
     for rs in vcommon.pmap(pcommon.script_worker, pcommon.reload_jobs(b, chk.seed, PROPS, int((160 if tier == "quick" else 4000) * scale), tag="rls6")):
+        prun.fold(chk, "C06", rs)
+    rrng = random.Random("c06rep/%d" % chk.seed)
+    rscripts = [(c.to_json(), ev) for c, ev in report_scripts(rrng, int((36 if tier == "quick" else 720) * scale) or 4)]
+    for rs in vcommon.pmap(pcommon.script_worker, [dict(build=b, scripts=rscripts[i:i + 6], props=PROPS) for i in range(0, len(rscripts), 6)]):
         prun.fold(chk, "C06", rs)
     # service tables around the width of the per-client masks (31, 32 services; and beyond): half of them on an unsanitized build,
     # where a shift past the mask width shows as the query that is never sent instead of aborting the daemon
